@@ -62,6 +62,10 @@ def newton_step(tier="quick", seed=0, only=None):
                         inp = dict(scenario=name, step_solver=ss, linear_solver=ls, dt=dt, rho=rho, x=x.tolist(), y=y.tolist())
                         if only is not None and only != inp:
                             continue
+                        if name == "qp_big_multipliers" and ls != "LU":
+                            # "up to the linear solver's tolerance": for this badly scaled system (entries 1 .. 1e5) the
+                            # iterative solvers' residual tolerance says nothing about the step error - LU only
+                            continue
                         params = mk_params(step_solver_type=enum("StepSolverType", ss), linear_solver_type=enum("LinearSolverType", ls))
                         it = Iterate(problem, params, x, y)
                         try:
